@@ -190,6 +190,8 @@ tagspec(struct scope *s)
 		et = declspecs(s, NULL, NULL, NULL).type;
 		if (!et)
 			error(&tok.loc, "no type in enum type specifier");
+		if (!(et->prop & PROPINT) || et->incomplete)
+			error(&tok.loc, "underlying type of enum must be a complete integer type");
 	}
 	if (tag)
 		t = scopegettag(s, tag, tok.kind != TLBRACE && tok.kind != TSEMICOLON);
